@@ -198,6 +198,7 @@ func TestVerifC11Check(t *testing.T) {
 			fileBefore := s.hostFileExists(x, "resetup")
 			mut0 := s.zk.MutLen()
 			s.run(p, "recovery")
+			s.raise()
 			cleared := s.c11JudgeClears(mut0, p)
 			_, still := s.zkGet(pathRecovery + "/" + x)
 			if len(cleared) > 0 {
